@@ -14,9 +14,13 @@ var _ *openfgav1.Userset
 // C16: line lookups. A line *declares* name under keyword kw when, after trimming, it starts with kw, one space, the
 // name, and the name ends there (the next character, if any, is not an identifier character of the DSL lexer).
 
+// Identifier characters of the DSL lexer (IDENTIFIER / EXTENDED_IDENTIFIER): letters, digits, '_', '-', '.', '/'.
+//@ spec identChar(c int) bool =
+//@   c == 95 || c == 45 || c == 46 || c == 47 || (97 <= c && c <= 122) || (65 <= c && c <= 90) || (48 <= c && c <= 57)
+
 //@ spec declares(line string, kw string, name string) bool =
-//@   let t = trimSpace(line), p = kw + " " + name ::
-//@     hasPrefix(t, p) && (len(t) == len(p) || !inre(substr(t, len(p), 1), re("^[A-Za-z0-9_./-]$")))
+//@   let t = trimSpace(line), p = kw + " " + name, rest = substr(trimSpace(line), len(kw + " " + name), len(trimSpace(line)) - len(kw + " " + name)) ::
+//@     hasPrefix(t, p) && (rest == "" || !identChar(charAt(rest, 0)))
 
 //@ func GetTypeLineNumber
 //@   props C16
